@@ -68,7 +68,8 @@ def increments(case, ctx):
     n = len(a)
     if isinstance(arg, list) and not trap:
         arg = np.array(arg)  # `acceleration * dt` on a list is outside "records" for the rectangle branch
-    v, d = ctx.lib(disp_mod.calc_velo_and_disp_from_accel_arr, arg, dt, trap=trap)
+    # the flag by keyword, or positionally as documented (acceleration, dt, trap) in one case out of three
+    v, d = ctx.libf(core.call_form(case), disp_mod.calc_velo_and_disp_from_accel_arr, ["trap"], arg, dt, trap=trap)
     v = np.asarray(v)
     d = np.asarray(d)
     ctx.shape(v, (n,), "velocity")
@@ -128,14 +129,15 @@ def object_level(case, ctx):
     ctx.equal(d, d2, "AccSignal.displacement vs array level")
     ctx.shape(v, (n,), "velocity")
     for trap in (True, False):
-        v3, d3 = ctx.lib(disp_mod.velocity_and_displacement_from_acceleration, np.array(arg), dt, trap=trap)
-        v4, d4 = ctx.lib(disp_mod.calc_velo_and_disp_from_accel_arr, np.array(arg), dt, trap=trap)
+        form = core.call_form(case)
+        v3, d3 = ctx.libf(form, disp_mod.velocity_and_displacement_from_acceleration, ["trap"], np.array(arg), dt, trap=trap)
+        v4, d4 = ctx.libf("kw" if form == "pos" else "pos", disp_mod.calc_velo_and_disp_from_accel_arr, ["trap"], np.array(arg), dt, trap=trap)
         ctx.equal(v3, v4, "velocity_and_displacement_from_acceleration vs calc_velo_and_disp_from_accel_arr (velocity, trap=%s)" % trap)
         ctx.equal(d3, d4, "velocity_and_displacement_from_acceleration vs calc_velo_and_disp_from_accel_arr (displacement, trap=%s)" % trap)
     if not case.get("trap", True):
         # switching trapezoid integration off at object level: on a fresh object and on one whose default series were already read
         for label, other in (("fresh object", ctx.lib(eqsig.AccSignal, arg, dt)), ("object with cached default series", asig)):
-            ctx.lib(other.generate_displacement_and_velocity_series, trap=False)
+            ctx.libf(core.call_form(case), other.generate_displacement_and_velocity_series, ["trap"], trap=False)
             ctx.equal(other.velocity, v4, "generate_displacement_and_velocity_series(trap=False) velocity vs array level (%s)" % label)
             ctx.equal(other.displacement, d4, "generate_displacement_and_velocity_series(trap=False) displacement vs array level (%s)" % label)
             ctx.lib(other.generate_displacement_and_velocity_series, trap=True)
